@@ -155,9 +155,37 @@ def check_source(label, src, res, seen=None):
     v = violation_for(src, tree)
     if v:
         sig, detail = v
+        label = attribute(label, sig)
         res.violation(sig + '|' + shape(label), {'label': label, 'source': src if len(src) < 3000 else src[:200] + '...<len %d>' % len(src),
                                                  'source_full': src if len(src) >= 3000 else None}, detail)
     return True
+
+
+_KIDS = None
+
+
+def attribute(label, sig):
+    """a depth-3 failure (context <- middle <- inner) whose (middle <- inner) part already fails the same way in a neutral context is
+    attributed to that depth-2 shape, so that one defect has one signature whatever surrounds it"""
+    global _KIDS
+    m = re.match(r'^(\w+)\[(\d+)\]<-(\w+)\[(\d+)\]<-([^/]+)/p\d+$', label)
+    if not m:
+        return label
+    _ctx, _slot, mid, slot2, inner = m.groups()
+    if _KIDS is None:
+        _KIDS = dict(exprs.child_texts())
+    if mid not in exprs.EXPR_D or inner not in _KIDS:
+        return label
+    for variant in exprs.variants(_KIDS[inner])[:2]:
+        src2 = 'async def f():\n x=' + exprs.fill(exprs.EXPR_D[mid], {int(slot2): variant})
+        try:
+            t2 = ast.parse(src2)
+        except SyntaxError:
+            continue
+        v2 = violation_for(src2, t2)
+        if v2 and v2[0] == sig:
+            return '%s[%s]<-%s/p0' % (mid, slot2, inner)
+    return label
 
 
 def violation_for(src, tree):
